@@ -17,6 +17,17 @@ rejected with UnknownClassException before define_class and reaches the class af
   K  (correspondence): result of every op, and the final `__dict__` of every instance (keys in order, values)
      and the link pairs, against lean/PyxModel/Attr.lean run by the driver command `(attr op…)`.
 
+Family `load` (D only).  The two classes, the association and the first rows are given as SQL TEXT (CREATE TABLE,
+CREATE ROP, positional INSERTs and NAMED INSERTs whose kind and column names are respelled, shuffled and partly
+omitted; referential values that match a row, that match none (dangling) and null ones) and built by
+xtuml.ModelLoader; the history (new / set / del / reads / where_eq / relate / unrelate / serialize under every
+spelling) then runs on the loaded metamodel.  The oracle cells start from the generated rows (not from what the
+implementation stored): a plain column holds the inserted value under its DECLARED name whatever the statement
+spelled, an omitted column holds None, a referential column holds no value of its own (signature
+referential-value-stored-twice) and reads the key of the instance the loader linked (None for dangling / null).
+D is checked on every loaded instance before the first op and after every op.  The model does not construct the
+post-load state, so these cases have no K counterpart (model_line returns None).
+
 Domain.  ASCII names; association keys spelled as declared on the
 referential side.  Deletes address ANY attribute: one that holds a value (its value goes away), one that holds
 none or a referential one (D: no OTHER attribute may lose or change its value — signature
@@ -43,13 +54,15 @@ RULE = ('(1) exhaustive: every history of length L (quick 3, thorough 4) over th
         '(find_metaclass / new / select_many / select_any) under each of the 4 spellings of a 2-letter kind BEFORE '
         'define_class under each spelling, then every lookup kind under every spelling after it, plus random '
         'histories over 2-4 kinds interleaving lookups before and after each definition (spellings used before the '
-        'definition are revisited after it) and redefinition attempts under other spellings; non-trivial = some cell was written under two '
+        'definition are revisited after it) and redefinition attempts under other spellings; (4) loaded from text (D only): the same two-class schema with its association and 3-7 rows written as SQL text (named INSERTs with respelled, shuffled, partly omitted columns; matching, dangling and null referential values; uuid and integer spellings of unique_id values), built by xtuml.ModelLoader, then a random history of up to 25 ops as in (2); non-trivial = some cell was written under two '
         'different spellings and read under yet another; distinct = distinct op sequence')
 EXHAUSTIVE = {'quick': True, 'thorough': True}
 ASSUMPTIONS = ['names are ASCII identifiers (str.upper on ASCII); association keys on the referential side are spelled as '
                'declared; a class whose attribute names coincide apart from letter case cannot exist: define_class '
                'rejects it (generated and checked: MetaModelException, nothing defined)',
-               'attribute names do not collide with Python-level attributes of xtuml.meta.Class']
+               'attribute names do not collide with Python-level attributes of xtuml.meta.Class',
+               'loaded-from-text family: identifiers the text grammar cannot spell (R<digit>... lexes as a relation id, '
+               'reserved words) are not generated; this family is checked by D alone (no model counterpart)']
 CHUNK = 6000
 CASE_TIMEOUT_S = 10
 
